@@ -1,8 +1,8 @@
 package main
 
 import (
-	"github.com/ChrisTrenkamp/xsel"
 	"fmt"
+	"github.com/ChrisTrenkamp/xsel"
 	"strings"
 )
 
@@ -23,7 +23,7 @@ func init() {
 }
 
 func nonEmptyNodes(res string) bool { return strings.HasPrefix(res, "L ") }
-func twoNodes(res string) bool     { return len(strings.Fields(res)) >= 3 }
+func twoNodes(res string) bool      { return len(strings.Fields(res)) >= 3 }
 
 func (rn *Runner) genDoc(maxNodes int) *Doc {
 	g := NewDocGen(rn.R.Fork(), maxNodes, 6)
